@@ -103,10 +103,12 @@ CHECKS = {
               "the real code (one driver at a time, all traffic) is the search."),
         design="§7 C12"),
     "C19": dict(
-        technique="Lean 4 permutation-invariance theorems for the accumulations of Model B + K-calc + shuffled rebuilds",
+        technique="Lean 4 permutation-invariance and renaming-invariance theorems (Model B accumulations, abstract rule systems) + K-calc + shuffled rebuilds",
         text=("Proved in Lean: sumVals (every `+=` accumulation of the rules) is invariant under permutation of its "
               "terms hour by hour, the de-duplicated collections do not depend on enumeration order, same-step job "
-              "order is irrelevant. Identifiers never enter Model B. Float non-associativity and Python hashing are "
+              "order is irrelevant; any two read-respecting computation orders end in the same state, and the rule system "
+              "transported along any renaming of its nodes has the transported state as its only consistent state "
+              "(identifiers_irrelevant). Identifiers never enter Model B. Float non-associativity and Python hashing are "
               "runtime: covered by rebuilding with shuffled creation order / permuted lists and comparing."),
         design="§7 C19"),
     "C09": dict(
